@@ -267,3 +267,45 @@ def dispatch_table(prog, qualname: str, subject: str, keys):
         else:
             raise AnalysisError(f"{qualname}: for '{k}' the dispatcher returns {str(v)[:120]}")
     return out
+
+
+# modules whose code a property's behaviour runs through (for package-wide sweeps that are the same rule for every property)
+MODULES_OF = {
+    "C01": ("processing", "smoothing", "timeseries"), "C02": ("smoothing",), "C03": ("processing", "smoothing", "hvsr_curve", "hvsr_traditional"),
+    "C04": ("processing", "seismic_recording_3c", "data_wrangler"), "C05": ("hvsr_traditional", "statistics", "hvsr_curve"),
+    "C06": ("window_rejection", "hvsr_traditional", "hvsr_azimuthal", "statistics"), "C07": ("data_wrangler", "regex", "timeseries"),
+    "C08": ("hvsr_curve", "hvsr_traditional", "hvsr_azimuthal", "hvsr_diffuse_field"), "C09": ("processing", "settings"),
+    "C10": ("preprocessing", "timeseries", "seismic_recording_3c"), "C11": ("hvsr_azimuthal", "statistics"),
+    "C12": ("object_io", "hvsr_traditional", "hvsr_azimuthal", "hvsr_diffuse_field", "hvsr_curve"), "C13": ("window_rejection",),
+    "C14": ("hvsr_spatial",), "C15": ("settings", "object_io", "preprocessing", "processing"), "C16": ("sesame",),
+    "C17": ("processing", "preprocessing", "instrument_response", "timeseries"), "C18": ("seismic_recording_3c", "timeseries"),
+    "C19": ("cli", "processing", "preprocessing", "timeseries", "seismic_recording_3c", "data_wrangler", "object_io"), "C20": ("postprocessing",),
+}
+
+
+def check_identity_comparisons(ck, prog, rule: str, pid: str):
+    """`is` / `is not` compares identities.  The package uses it for `None` only; against a string, a number or a name bound to one
+    (`x is LOGNORMAL`, `dt is majority_dt`) the outcome depends on whether two equal values happen to be the same object - a
+    string read from a file, a float of another recording, a numpy bool are equal but not identical - and against `True` / `False`
+    it fails for numpy booleans.  Every identity comparison in the modules the property runs through has `None` on one side."""
+    import ast as _ast
+    from ..astutil import unparse as _unparse
+    from ..model import norm_key as _nk
+    n = 0
+    for f in prog.funcs.values():
+        if f.module.name not in MODULES_OF.get(pid, ()) or f.kind == "lambda":
+            continue
+        for c in _ast.walk(f.node):
+            if not isinstance(c, _ast.Compare):
+                continue
+            sides = [c.left] + list(c.comparators)
+            for i, op in enumerate(c.ops):
+                if not isinstance(op, (_ast.Is, _ast.IsNot)):
+                    continue
+                n += 1
+                a, b = sides[i], sides[i + 1]
+                if any(isinstance(x, _ast.Constant) and x.value is None for x in (a, b)):
+                    continue
+                ck.violation(rule, f.qualname, _nk(c, 80), f"`{_unparse(c)[:90]}` compares identities, not values: equal values that are different objects (a string "
+                             f"read from a file, a number computed elsewhere, a numpy boolean) take the other branch", loc=f.loc(c))
+    ck.ok(rule, f"identity comparisons ({pid})", f"{n} identity comparisons, all against None", nontrivial=False)
